@@ -87,7 +87,7 @@ const c17FixedBatches = 8
 
 func init() {
 	fw.Register(&fw.Prop{
-		ID: "C17", Cases: tierN(c17FixedBatches+16, c17FixedBatches+2000),
+		ID: "C17", Cases: tierN(c17FixedBatches+200, c17FixedBatches+5000),
 		Run: func(c *fw.Ctx) {
 			seen := map[uint64][2]uint64{}
 			switch c.Idx {
